@@ -1673,3 +1673,253 @@ func init() {
 		c.Dom("size-not-carried", f, sizeStores, "size cached on the copy", GCond("receiver has no sidecar", f, Cmp(isSidecar, token.EQL, Nil())))
 	})
 }
+
+func init() {
+	extendProp("C27", "Opcode handlers never slice with a bound produced by an unchecked 64-bit addition of run-time operands: a uint64 sum that reaches a slice bound in an opcode handler is either overflow-tested (sum < operand) or both operands are bounded by a dominating comparison; and RETURNDATACOPY tests the 256-bit overflow flag of offset+length before slicing the return data.", nil, func(c *Ctx) {
+		c.Rule("OVF/C27.slicebounds")
+		vmp := "core/vm"
+		n := 0
+		for _, f := range c.FuncsInFiles(vmp, "instructions.go", "eips.go") {
+			eachInstr(f, func(in ssa.Instruction) {
+				sl, ok := in.(*ssa.Slice)
+				if !ok {
+					return
+				}
+				for _, b := range []ssa.Value{sl.Low, sl.High} {
+					if b == nil {
+						continue
+					}
+					add, ok := stripConv(b).(*ssa.BinOp)
+					if !ok || add.Op != token.ADD || !isUnsigned(add.Type()) {
+						continue
+					}
+					if _, k := add.X.(*ssa.Const); k {
+						continue
+					}
+					if _, k := add.Y.(*ssa.Const); k {
+						continue
+					}
+					n++
+					c.Funcs[f] = true
+					// overflow test: sum < operand (either polarity) on a dominating edge
+					tested := false
+					for _, opd := range []ssa.Value{add.X, add.Y} {
+						for e := range EdgesWhere(f, Cmp(Is(add), token.GEQ, Is(opd))) {
+							if edgeDominates(e, in.Block()) {
+								tested = true
+							}
+						}
+					}
+					c.Check(tested, "sum-bound/"+fnName(f), in.Pos(), "the 64-bit sum used as a slice bound is overflow-tested", fnName(f)+" slices with a bound computed by an unchecked uint64 addition of two run-time operands: operands near 2^64 wrap the bound below the other one and the slice expression panics instead of the frame halting")
+				}
+			})
+		}
+		if n == 0 {
+			c.OK("sum-bound/none", token.NoPos, "no opcode handler slices with a 64-bit sum of run-time operands")
+		}
+		// RETURNDATACOPY: the 256-bit end offset's overflow flag is consulted before the slice
+		if f := c.TryFn(vmp, "opReturnDataCopy"); f != nil {
+			c.Funcs[f] = true
+			var slices []Site
+			eachInstr(f, func(in ssa.Instruction) {
+				if sl, ok := in.(*ssa.Slice); ok {
+					if u, ok := sl.X.(*ssa.UnOp); ok {
+						if fa, ok := u.X.(*ssa.FieldAddr); ok && fieldAddrName(fa) == vmp+".EVM.returnData" {
+							slices = append(slices, Site{f, in})
+						}
+					}
+				}
+			})
+			c.Expect(1, len(slices), "slice of the return data in RETURNDATACOPY")
+			ov := c.Calls(f, "(*github.com/holiman/uint256.Int).Uint64WithOverflow")
+			c.Expect(2, len(ov), "Uint64WithOverflow conversions in RETURNDATACOPY")
+			for i, o := range ov {
+				call := o.Instr.(*ssa.Call)
+				noOv := EdgesWhere(f, False(func(v ssa.Value) bool { return resultValues(call, 1)[v] }))
+				g := Guard{Desc: "overflow flag clear", Steps: []Step{{Edges: noOv}}, Sites: len(noOv)}
+				c.Dom(fmt.Sprintf("returndata-overflow-flag-%d", i), f, slices, "return data sliced", g)
+			}
+		}
+	})
+}
+
+func init() {
+	extendProp("C46", "The node that pushNode reports as evicted from a full replacement list is no longer in the returned list (its IP is released by the caller): the reported element is read before the list's elements are shifted/overwritten, never from the list as returned.", nil, func(c *Ctx) {
+		c.Rule("SAMEVAL/C46.evicted")
+		f := c.Fn("p2p/discover", "pushNode")
+		if f == nil {
+			return
+		}
+		c.Funcs[f] = true
+		n := 0
+		for _, r := range c.Returns(f) {
+			ret := r.Instr.(*ssa.Return)
+			ev := retVal(ret, 1)
+			if Nil()(ev) {
+				continue
+			}
+			n++
+			ld, ok := ev.(*ssa.UnOp)
+			if !ok {
+				c.Undecided("evicted-not-kept/"+fnName(f), r.Pos(), "the evicted node is not a plain element read")
+				continue
+			}
+			ia, ok := ld.X.(*ssa.IndexAddr)
+			if !ok {
+				c.Undecided("evicted-not-kept/"+fnName(f), r.Pos(), "the evicted node is not a plain element read")
+				continue
+			}
+			// is the element overwritten (shift) after it was read?
+			overwritten := false
+			eachInstr(f, func(in ssa.Instruction) {
+				if !instrReaches(ld, in) {
+					return
+				}
+				switch x := in.(type) {
+				case *ssa.Call:
+					if b, ok := x.Call.Value.(*ssa.Builtin); ok && b.Name() == "copy" {
+						overwritten = true
+					}
+				case *ssa.Store:
+					if _, ok := x.Addr.(*ssa.IndexAddr); ok {
+						overwritten = true
+					}
+				}
+			})
+			sameList := sameValue(retVal(ret, 0), ia.X)
+			c.Check(overwritten || !sameList, "evicted-not-kept/"+fnName(f), r.Pos(), "the reported node was read before the list was shifted over it", "pushNode reports as evicted an element read from the very list it returns, with no later overwrite: the node is still in the replacement list, so the caller releases the IP of a live replacement and never releases the one actually dropped")
+		}
+		c.Expect(1, n, "returns of pushNode reporting an evicted node")
+	})
+}
+
+func init() {
+	extendProp("C47", "A sync cycle that commits to running never persists a stale `complete` status: in syncerV2.Sync the completed phase is demoted (or known not to be complete) before the catch-up runs and before the deferred status save is armed, so an interrupted catch-up cannot journal a completed sync at a block whose trie was never generated.", nil, func(c *Ctx) {
+		c.Rule("ORDER/C47.demote")
+		sp := "eth/protocols/snap"
+		f := c.Fn(sp, "(*syncerV2).Sync")
+		if f == nil {
+			return
+		}
+		isComplete := func(v ssa.Value) bool {
+			k, ok := v.(*ssa.Const)
+			if !ok || k.Value == nil {
+				return false
+			}
+			return k.Int64() == c.constInt(sp, "phaseComplete")
+		}
+		demote := c.CallsWhere(f, "(*"+sp+".syncerV2).setPhase", func(cc *ssaCall) bool {
+			k, ok := cc.Args[1].(*ssa.Const)
+			return ok && k.Value != nil && k.Int64() == c.constInt(sp, "phaseGenerate")
+		})
+		notComplete := GCond("phase != complete", f, Cmp(CallRes("(*"+sp+".syncerV2).getPhase"), token.NEQ, isComplete))
+		var targets []Site
+		targets = append(targets, c.Calls(f, "(*"+sp+".syncerV2).catchUp")...)
+		nDefer := 0
+		eachInstr(f, func(in ssa.Instruction) {
+			d, ok := in.(*ssa.Defer)
+			if !ok {
+				return
+			}
+			if mc, ok := d.Call.Value.(*ssa.MakeClosure); ok {
+				if len(c.Calls(mc.Fn.(*ssa.Function), "(*"+sp+".syncerV2).saveSyncStatus")) > 0 {
+					nDefer++
+					targets = append(targets, Site{f, in})
+				}
+			}
+		})
+		c.Expect(1, nDefer, "deferred status save in Sync")
+		c.Expect(2, len(targets), "catch-up call and deferred save in Sync")
+		c.Dom("demoted-before-running", f, targets, "catch-up / deferred save armed", GSites("setPhase(phaseGenerate)", demote), notComplete)
+	})
+}
+
+func init() {
+	extendProp("C50", "Unsubscribe returns only after the subscription's removal from the feed has completed, whichever caller performs it: the removal (feed.remove and closing the error channel) runs inside a sync.Once.Do that every return of Unsubscribe passes (a concurrent second caller waits for the first), not behind a flag that lets later callers return early.", nil, func(c *Ctx) {
+		c.Rule("ONCE/C50.unsubscribe")
+		n := 0
+		for _, f := range c.AllFuncs("event") {
+			if f.Name() != "Unsubscribe" || f.Signature.Recv() == nil {
+				continue
+			}
+			rn := derefNamed(f.Signature.Recv().Type())
+			if rn == nil || (rn.Obj().Name() != "feedSub" && rn.Obj().Name() != "feedOfSub") {
+				continue
+			}
+			if f.Synthetic != "" && len(f.Blocks) == 0 {
+				continue
+			}
+			n++
+			c.Funcs[f] = true
+			do := c.Calls(f, "(*sync.Once).Do")
+			var rets []Site
+			for _, r := range c.Returns(f) {
+				if r.Instr.Block() != f.Recover {
+					rets = append(rets, r)
+				}
+			}
+			c.Dom("waits-for-removal", f, rets, "return", GSites("sub.errOnce.Do(remove)", do))
+			inOnce := 0
+			for _, d := range do {
+				if mc, ok := d.Instr.(*ssa.Call).Call.Args[1].(*ssa.MakeClosure); ok {
+					w := mc.Fn.(*ssa.Function)
+					c.Funcs[w] = true
+					inOnce += len(c.Calls(w, "*.remove"))
+				}
+			}
+			direct := len(c.Calls(f, "*.remove"))
+			c.Check(inOnce == 1 && direct == 0, "removal-inside-once/"+fnName(f), f.Pos(), "feed.remove runs inside the Once", "feed.remove is not (only) run inside the sync.Once of Unsubscribe")
+		}
+		c.Expect(2, n, "Unsubscribe methods of feed subscriptions")
+	})
+}
+
+func init() {
+	extendProp("C06", "The hasher's scratch buffer does not escape through hash(): no value returned by (*hasher).hash is (a slice of) the result of encodeShortNode/encodeFullNode/encodedBytes — an embedded child's blob is copied before it is returned, so a parent (in particular the parallel arm, whose per-child hashers go back to the pool at once) never holds bytes that the next user of the hasher overwrites.", nil, func(c *Ctx) {
+		c.Rule("ESCAPE/C06.scratch")
+		f := c.Fn("trie", "(*hasher).hash")
+		if f == nil {
+			return
+		}
+		c.Funcs[f] = true
+		scratch := "(*trie.hasher).encodeShortNode|(*trie.hasher).encodeFullNode|(*trie.hasher).encodedBytes"
+		fromScratch := func(v ssa.Value) bool {
+			seen := map[ssa.Value]bool{}
+			var walk func(v ssa.Value) bool
+			walk = func(v ssa.Value) bool {
+				if v == nil || seen[v] {
+					return false
+				}
+				seen[v] = true
+				switch x := v.(type) {
+				case *ssa.Call:
+					return matchCallee(calleeName(&x.Call), scratch)
+				case *ssa.Slice:
+					return walk(x.X)
+				case *ssa.ChangeType:
+					return walk(x.X)
+				case *ssa.Convert:
+					return walk(x.X)
+				case *ssa.Phi:
+					for _, e := range x.Edges {
+						if walk(e) {
+							return true
+						}
+					}
+				}
+				return false
+			}
+			return walk(v)
+		}
+		n := 0
+		for _, r := range c.Returns(f) {
+			if r.Instr.Block() == f.Recover {
+				continue
+			}
+			n++
+			v := retVal(r.Instr.(*ssa.Return), 0)
+			c.Check(!fromScratch(v), "no-scratch-return/"+fnName(f), r.Pos(), "the returned bytes are a cached hash, a fresh hash, the hash node itself or a copy", "hash() returns the hasher's scratch buffer (the encoder's output) for an embedded node: the buffer is reused by the next encode on that hasher — in the parallel arm by another goroutine's child after the hasher went back to the pool — so the parent embeds overwritten bytes and the root hash is wrong")
+		}
+		c.Expect(5, n, "returns of hasher.hash")
+	})
+}
